@@ -16,7 +16,7 @@ MANIFEST_INFO = {
     "engine": "A",
     "design_ref": "DESIGN.md section 5, C02",
     "technique": "stateless deviation-bounded DFS over stage/cleanup/fixture behaviours of generated TestCase programs whose cleanups, patches and (nested) fixtures are registered at every site (setUp before/after the up-call, test, tearDown, inside another cleanup); execution log compared with the stack-discipline lifecycle model; second run() of the same instance replayed from memoised decisions",
-    "level_text": "For every ordered selection of up to 3 registrations from 25 kinds (a patched class attribute that overrides a base class's with a falsy value, the same cleanup registered twice with another one in between, patch of a property-backed attribute, patch of a staticmethod / classmethod of a class, of a staticmethod a subclass inherits, cleanup at 4 sites (one with keyword arguments named fn, result, function and f), cleanup registered by a cleanup, patch of an existing/missing attribute incl. double patch, fixture at 3 sites, nested fixture, a fixture whose getDetails raises after a successful setUp, an addOnException handler that itself raises when told about an exception of the test method or tearDown) and every program with at most 2 (quick) / 3 (thorough) deviating stages or fixture hooks, the real run is compared with the model: setUp first, test+tearDown iff setUp returned, then the cleanup stack popped to empty (each registration exactly once, LIFO, BaseExceptions included), patched attributes restored, and a second run() of the same instance produces the same log and outcome. Two clones of one prototype (clone_test_with_new_id; also of an expectedFailure-decorated test) are additionally run as two threads under the scheduler, every stage body being a scheduling point (<= 2 preemptions/deviations): each clone must run exactly its own cleanups.",
+    "level_text": "For every ordered selection of up to 3 registrations from 25 kinds (plus two registration sets on an expectedFailure-decorated method; a patched class attribute that overrides a base class's with a falsy value, the same cleanup registered twice with another one in between, patch of a property-backed attribute, patch of a staticmethod / classmethod of a class, of a staticmethod a subclass inherits, cleanup at 4 sites (one with keyword arguments named fn, result, function and f), cleanup registered by a cleanup, patch of an existing/missing attribute incl. double patch, fixture at 3 sites, nested fixture, a fixture whose getDetails raises after a successful setUp, an addOnException handler that itself raises when told about an exception of the test method or tearDown) and every program with at most 2 (quick) / 3 (thorough) deviating stages or fixture hooks, the real run is compared with the model: setUp first, test+tearDown iff setUp returned, then the cleanup stack popped to empty (each registration exactly once, LIFO, BaseExceptions included), patched attributes restored, a second run() of the same instance produces the same log and outcome, and a third run in which nothing raises any more is a clean success. Two clones of one prototype (clone_test_with_new_id; also of an expectedFailure-decorated test) are additionally run as two threads under the scheduler, every stage body being a scheduling point (<= 2 preemptions/deviations): each clone must run exactly its own cleanups.",
     "level_note": "Programs always up-call; fixtures use the fixtures 4.x _setUp protocol; attribute writes on the patched object are logged by the object itself.",
 }
 
